@@ -50,3 +50,8 @@ Definition step_phases_as_modelled : Prop :=
 Definition validation_reports_and_raises_together : Prop :=
   List.length gen_valid_sites = 9 /\ forallb snd gen_valid_sites = true /\
   gen_valid_verdict_is_not_msgs = true /\ gen_valid_raises_only_there = true.
+
+(* ---- Engine.to_function's readiness scan as Lifecycle.v's `ready` has it (C19): before anything else, for every
+   element of the network and each of the three groups, a declared but uninitialised group raises RuntimeError, and so
+   do declared states without next states; has_states / has_next_states / ... are `slot is not None` *)
+Definition readiness_scan_as_modelled : Prop := gen_ready_scan = (true, true, true, true).
